@@ -17,10 +17,11 @@ RULE = ('cf: reference dates 1900-2100 in every spelling the parser lists '
         'minutes, seconds} x calendars {standard, gregorian, '
         'proleptic_gregorian, noleap, 365_day, all_leap, 366_day, none} x '
         'offsets from 0 to centuries incl. binary fractions, bounds on/off '
-        '(explicit time_bounds and derived); ioapi: start dates over leap '
+        '(explicit time_bounds and derived), float64 and int32 time '
+        'variables; ioapi: start dates over leap '
         'days/year ends x steps 1 s .. 24 h, decoded through TFLAG, through '
         'SDATE/STIME/TSTEP only, and through the synthesised CF time '
-        'variable; inverse laws date2num(getTimes) and time2idx(getTimes). '
+        'variable (built from files with and without a TFLAG variable); inverse laws date2num(getTimes) and time2idx(getTimes). '
         'thorough adds the exhaustive sweep: every day of 1899-2101 x 4 '
         'units (standard calendar). only decodings that RETURN are judged. '
         'evaluations = decode calls; distinct = digest of the spec.')
